@@ -37,6 +37,12 @@ Theorem c09_checkpointed_latest_wins : forall (K : consts) (stride lim : N) (l :
 Proof. exact checkpointed_latest_wins. Qed.
 Print Assumptions c09_checkpointed_latest_wins.
 
+(* on a valid stream "largest frame seq" is "last in stream order": no checkpoint frame for that seq follows the winner *)
+Theorem c09_latest_is_last_in_stream : forall (l : list ev) (s : N) (b : ck) (x y : list ck),
+  valid l -> latest_for (ckpts l) s b -> ckpts l = x ++ b :: y -> Forall (fun k => ck_to k <> s) y.
+Proof. exact latest_is_last. Qed.
+Print Assumptions c09_latest_is_last_in_stream.
+
 (* the code before the fix (bounded backward scan trusted even when cut short) violated it: with a scan window
    of 2 checkpoint frames, a cut point whose frame is the third-newest is reported not checkpointed *)
 Theorem c09_checkpointed_iff_unfixed_refuted :
